@@ -63,10 +63,10 @@ deriving Repr, Inhabited
 
 def collectArgs (T : PTables) (mac : MacroDef) : List Char → Nat → Buf → Nat → Args → M (Args × Buf)
   | [], _, buf, _, acc => pure (acc, buf)
-  | code :: codes, n, buf, pos, acc => do
+  | code :: codes, n, buf, pos0, acc => do
     let buf := skipSpace buf
     let tok := buf.head?
-    let pos := match tok with | some t => t.pos | none => pos
+    let pos := match tok with | some t => t.pos | none => pos0
     if code == '*' then
       match tok with
       | some t =>
@@ -79,7 +79,7 @@ def collectArgs (T : PTables) (mac : MacroDef) : List Char → Nat → Buf → N
         collectArgs T mac codes (n + 1) r.2 pos { args := acc.args ++ [r.1], extr := acc.extr ++ [r.1] }
       else
         let dflt := match mac.defaults[n]? with
-          | some d => d.map (fun t => { t with pos := pos, fix := true })
+          | some d => d.map (fun t => { t with pos := pos0, fix := true })
           | none => []
         collectArgs T mac codes (n + 1) buf pos { args := acc.args ++ [dflt], extr := acc.extr ++ [[]] }
     else if code == 'A' then
